@@ -1173,14 +1173,17 @@ package goatlang
 //@   ensures#frame keeps(v, len(v.stack))
 //@   ensures#next stays(v)
 //@ func (*VM).exec case codeFastGetInt
-//@   property C07 C02
+//@   property C07 C02 C10
 //@   requires localOK(v, ins(v).A)
+//@   -- the fused form reads through Value.Get like GET does (nil maps, bounds, key conversion)
+//@   ensures#viaGet @C10 @C02 calls("(Value).Get") == 1
 //@   ensures#delta len(v.stack) == old(len(v.stack)) + 1
 //@   ensures#frame keeps(v, old(len(v.stack)))
 //@   ensures#next stays(v)
 //@ func (*VM).exec case codeFastSetInt
-//@   property C07 C02
+//@   property C07 C02 C10
 //@   requires need(v, 1) && localOK(v, ins(v).A)
+//@   ensures#viaSet @C10 @C02 calls("(Value).Set") == 1
 //@   ensures#delta len(v.stack) == old(len(v.stack)) - 1
 //@   ensures#frame keeps(v, len(v.stack))
 //@   ensures#next stays(v)
@@ -1335,6 +1338,8 @@ package goatlang
 //@   property C07 C11
 //@   reveal valid
 //@   requires need(v, 1)
+//@   -- Go: cap(make([]T, n)) == n, so the first append cannot write into a shared tail
+//@   callsite#exactcap @C11 NewSlice: cap(arg_data) == len(arg_data)
 //@   ensures#delta len(v.stack) == old(len(v.stack))
 //@   ensures#frame keeps(v, len(v.stack) - 1)
 //@   ensures#next stays(v)
@@ -1432,11 +1437,13 @@ package goatlang
 //@   uselemma intKey(int(w1A))
 //@   argrel 0 1 numvalue
 //@ rule codeLocalGet codeGetAttr codeCall -> codeFastCallAttr
+//@   property C09
 //@   sameline 0 1
 //@   axioms BRIDGE_ORD
 //@   typing -32768 <= int(w2A) && int(w2A) <= 32767 && -32768 <= int(w2B) && int(w2B) <= 32767
 //@   uselemma paramsRT(w2A, w2B)
 //@ rule codeGlobalGet codeCall -> codeFastCall
+//@   property C09
 //@ rule codeLocalGet codeGetAttr -> codeFastGetAttr
 //@   sameline 0 1
 //@ rule codeLocalGet codeSetAttr -> codeFastSetAttr
@@ -1880,6 +1887,8 @@ package goatlang
 //@   ensures#inplace old(len(s.data)) + len(items) <= old(cap(s.data)) ==> aliases(as(result.value, *sliceT).data, s.data, 0)
 //@   ensures#grow old(len(s.data)) + len(items) > old(cap(s.data)) ==> isfresh(arr(as(result.value, *sliceT).data)) && (forall j int :: 0 <= j && j < len(s.data) ==> s.data[j] == old(s.data[j]))
 //@   ensures#header s.data == old(s.data)
+//@   -- every appended item, however many, is converted to the element type (C04: typed arithmetic)
+//@   ensures#typed @C04 forall j int :: 0 <= j && j < len(items) ==> as(result.value, *sliceT).data[old(len(s.data)) + j] == old(items[j]).assign(s.valueType)
 //@
 //@ func (*sliceT).Range
 //@   property C11
@@ -2040,11 +2049,13 @@ package goatlang
 //@   ensures len(result) == 0 || isfresh(arr(result))
 //@   ensures wfC(c) && keepsC(c) && tokensKept()
 //@ func (*compiler).optimize
-//@   property C06 C02
+//@   property C06 C02 C07
 //@   requires c != nil
 //@   allocates elems(instruction)
 //@   nopanic
 //@   ensures#off !c.Optimize ==> result == in
+//@   -- every segment, however short, goes through both passes (two-instruction windows exist)
+//@   ensures#twice @C06 @C07 c.Optimize ==> calls("(*compiler).doOptimize") == 2
 //@   trusted_ensures c.Optimize ==> optimized(result)
 //@   trusted_ensures len(result) == 0 || isfresh(arr(result)) || result == in
 //@ func (*compiler).doOptimize
@@ -2059,6 +2070,9 @@ package goatlang
 //@   requires wfC(c) && tok != nil && len(tok.Tokens) >= 3 && tokArr(arr(tok.Tokens)) && (forall j int :: 0 <= j && j < len(tok.Tokens) ==> tok.Tokens[j] != nil)
 //@   ensures#wf wfC(c) && keepsC(c)
 //@   ensures#span c.Optimize ==> optimized(thenI) && (len(elseI) > 0 ==> optimized(elseI))
+//@   -- one scope frame for the statement and one for each branch: names of the then-block are
+//@   -- gone before the else-block is compiled
+//@   ensures#frames @C08 calls("(*compiler).Begin") == ite(old(len(tok.Tokens)) > 3, 3, 2) && calls("(*compiler).End") == calls("(*compiler).Begin")
 //@   ensures#noelse len(elseI) == 0 ==> len(res) >= len(thenI) + 1 && res[len(res)-len(thenI)-1].Code == codeJumpFalse && int(res[len(res)-len(thenI)-1].A) == len(thenI)
 //@   ensures#else len(elseI) > 0 ==> len(res) >= len(thenI) + len(elseI) + 2 && res[len(res)-len(elseI)-len(thenI)-2].Code == codeJumpFalse && int(res[len(res)-len(elseI)-len(thenI)-2].A) == len(thenI) + 1 && res[len(res)-len(elseI)-1].Code == codeJump && int(res[len(res)-len(elseI)-1].A) == len(elseI)
 //@   ensures#thenplaced len(elseI) > 0 ==> (forall j int :: 0 <= j && j < len(thenI) ==> res[len(res)-len(elseI)-len(thenI)-1+j] == thenI[j])
@@ -2920,6 +2934,17 @@ package goatlang
 //@
 //@ -- a call on the right of a declaration / assignment is asked for as many results as there are
 //@ -- targets (the count lives in the call node's third child)
+//@ -- a return directly followed by a token that cannot start an expression has no operands
+//@ spec stopsReturn(s string) bool
+//@   def s == "}" || s == ";" || s == "case" || s == "default"
+//@ func returnNud
+//@   property C06 C07
+//@   requires p != nil && t != nil && p.Token != nil
+//@   modifies *
+//@   ensures#bare stopsReturn(old(p.Token.Symbol)) ==> calls("(*parser).Expression") == 0
+//@ func returnNud loop 0
+//@   invariant p != nil && t != nil
+//@   invariant#bare !stopsReturn(old(p.Token.Symbol)) || (calls("(*parser).Expression") == 0 && p.Token != nil && p.Token.Symbol == old(p.Token.Symbol))
 //@ func assignResize
 //@   property C07 C09
 //@   modifies H$token
@@ -2934,6 +2959,7 @@ package goatlang
 //@   requires p != nil
 //@   modifies *
 //@   ensures#resized calls("(*parser).Expression") == calls("assignResize")
+//@   callsite#operands assignResize: arg_left == left
 //@ func getDecl loop 0
 //@   invariant p != nil && decl != nil && left != nil
 //@   invariant#nocalls calls("(*parser).Expression") == 0 && calls("assignResize") == 0
